@@ -153,7 +153,8 @@ def choose_op(rng, pose, allow_tf, want=None):
             return {"k": "remove_components", "components": [], "points": {n: rng.sample(p, rng.randint(1, max(1, len(p) - 1)))}}
         if k == "interpolate":
             new = rng.choice([10, 12.5, 25, 30, 50, 60])
-            if round(F * new / float(pose.body.fps)) < 1: continue
+            cur = float(pose.body.fps)
+            if not (cur > 0 and cur < float("inf")) or round(F * new / cur) < 1: continue        # a rate the pose cannot be resampled from
             return {"k": k, "new_fps": new, "kind": rng.choice(["linear", "quadratic", "cubic"])}
         if k == "normalize":
             both = [(a, b) for a in range(N) for b in range(N) if a != b and (obs[:, :, a] & obs[:, :, b]).any()]
